@@ -32,7 +32,7 @@ def sqrt(eng, st, x, ty):
         seen.add(key)
         eng.add_obligation(st, "def:sqrt-of-nonnegative", "def", x.e >= 0)
         st.assume(x.e >= 0)
-        st.assume(z3.And(w >= 0, w * w == x.e))
+        st.assume(eng.mark_def(z3.And(w >= 0, w * w == x.e)))
     d = None
     if x.d:
         eng.add_obligation(st, "def:sqrt-derivative-at-nonzero", "def", w != 0)
